@@ -226,6 +226,8 @@ func c07corpus(c *Ctx) []c07text {
 	} {
 		out = append(out, c07text{fmt.Sprintf("lit:%d", i), []byte(s)})
 	}
+	// member names that need escapes sort by the characters they stand for, not by their escaped spelling
+	out = append(out, c07text{"lit:escaped-keys", []byte("{\"aXb\":2,\"a\\\"b\":1,\"A\":3,\"0\":2,\"\\n\":1,\"a\\\\b\":4,\"a\\u0001b\":5,\"a\\tb\":6,\"a b\":7,\"\\u001f\":8,\" \":9}")})
 	// every exponent a double can carry, of either sign, with one, three and two mantissa digits
 	{
 		var sb strings.Builder
